@@ -287,8 +287,10 @@ func (ref *compareReference) fullScore(l, r int) float64 {
 }
 
 // ambiguous reports whether the sequential result is not uniquely determined:
-// a score tie among candidate pairs, or unique identifiers that connect one
-// individual with two different partners.
+// a score tie among candidate pairs. Unique identifiers that connect one
+// individual with two different partners were counted as a tie too until the
+// library decided them in the order of the left side (they are only counted
+// by the probe now): the property excuses score ties only.
 func (ref *compareReference) ambiguous(cr *CaseResult) bool {
 	amb := false
 	// unique identifier ties
@@ -300,7 +302,6 @@ func (ref *compareReference) ambiguous(cr *CaseResult) bool {
 			}
 		}
 		if k > 1 {
-			amb = true
 			cr.Probes["unique_id_tie"]++
 		}
 	}
@@ -312,7 +313,6 @@ func (ref *compareReference) ambiguous(cr *CaseResult) bool {
 			}
 		}
 		if k > 1 {
-			amb = true
 			cr.Probes["unique_id_tie"]++
 		}
 	}
